@@ -26,6 +26,8 @@ var Quirks = []Quirk{
 	{ID: "C01-usertype-in-inline-object", Detect: hasUserTypeInInlineObject, SigAny: []string{"undefined: _"}},
 	{ID: "C01-body-attr-optional-nonpointer", Detect: hasBodyAttrOptionalNonPointer, SigAny: []string{"cannot use &_ (value of type *"}},
 	{ID: "C01-path-param-named-p", Detect: hasPathParamNamedP, SigAny: []string{"client/encode_decode: cannot use"}},
+	{ID: "C01-collection-of-result-type-with-inline-object", Detect: hasCollectionOfInlineObject, SigAny: []string{"struct{…}"}},
+	{ID: "C01-recursive-result-type-nested-view", Detect: hasRecursiveNestedView, SigAny: []string{"server/encode_decode: cannot use"}},
 	{ID: "C01-two-schemes-same-type", Detect: hasTwoSchemesSameType, SigAny: []string{"redeclared", "duplicate method"}},
 	{ID: "C01-body-fields-user-type", Detect: hasBodyFieldsUserType, SigAny: []string{"client/types: cannot use _ (variable of type *struct{…}"}},
 	{ID: "C01-body-fields-inline-required", Detect: hasBodyFieldsInlineRequired, SigAny: []string{"== nil (mismatched types", "cannot indirect"}},
@@ -35,7 +37,7 @@ var Quirks = []Quirk{
 // the generator steers away from exactly those.
 func OpenQuirks() map[string]bool {
 	out := map[string]bool{}
-	for _, id := range []string{"C02-body-fields-client-sends-whole-payload", "C02-primitive-payload-path-param-named-p", "C02-client-path-slash-unescaped", "C03-response-header-array-not-split", "C03-recursive-result-header-attr-lost-in-nested"} {
+	for _, id := range []string{"C02-body-fields-client-sends-whole-payload", "C02-primitive-payload-path-param-named-p", "C02-client-path-slash-unescaped", "C03-response-header-array-not-split", "C03-recursive-result-header-attr-lost-in-nested", "C08-recursive-result-type-two-self-refs-loses-attribute", "C08-required-object-absent-client-panic"} {
 		if kf.Open(id) {
 			out[id] = true
 		}
@@ -321,6 +323,46 @@ func hasTwoSchemesSameType(d *m.Design) bool {
 		for _, names := range kinds {
 			if len(names) > 1 {
 				return true
+			}
+		}
+	}
+	return false
+}
+
+func typeHasInlineObject(ut *m.UserType) bool {
+	if ut == nil || ut.Attr == nil || ut.Attr.Type.Kind != m.Object {
+		return false
+	}
+	for _, f := range ut.Attr.Type.Fields {
+		if f.Attr.Type.Kind == m.Object {
+			return true
+		}
+	}
+	return false
+}
+
+func hasCollectionOfInlineObject(d *m.Design) bool {
+	for _, t := range d.Types {
+		if t.CollectionOf != "" && typeHasInlineObject(d.TypeByName(t.CollectionOf)) {
+			return true
+		}
+	}
+	return false
+}
+
+func hasRecursiveNestedView(d *m.Design) bool {
+	for _, t := range d.Types {
+		if !t.Result || t.Attr == nil {
+			continue
+		}
+		for _, v := range t.Views {
+			for _, vf := range v.Fields {
+				if vf.View == "" {
+					continue
+				}
+				if f := d.FieldByName(t.Attr, vf.Name); f != nil && f.Attr.Type.Kind == m.User && f.Attr.Type.User == t.Name {
+					return true
+				}
 			}
 		}
 	}
